@@ -48,6 +48,26 @@ Theorem C05_disabled_records_nothing : forall fin id st,
 Proof. exact disabled_records_nothing. Qed.
 Print Assumptions C05_disabled_records_nothing.
 
+(* Threads: the switch is thread-local.  In every interleaving of the events of any number of threads
+   (one of them may be abandoned inside a bracket after a timeout and leave it at any later time), the
+   state of a thread is the result of its own events only; so its switch is restored, and a test case
+   running in a fresh thread records what it executes. *)
+Theorem C05_threads_independent : forall fin sched T t,
+  run_schedule fin sched T t = run fin (own t sched) (T t).
+Proof. exact run_schedule_thread. Qed.
+Print Assumptions C05_threads_independent.
+
+Theorem C05_schedule_restores : forall sched T t,
+  enabled (run_schedule true sched T t) = enabled (T t).
+Proof. exact schedule_enabled. Qed.
+Print Assumptions C05_schedule_restores.
+
+Theorem C05_fresh_thread_records : forall sched T t pre id post,
+  T t = st_fresh -> own t sched = pre ++ Line id :: post ->
+  In id (lines (run_schedule true sched T t)).
+Proof. exact fresh_thread_records. Qed.
+Print Assumptions C05_fresh_thread_records.
+
 (* The unrepaired brackets (no `finally`) violate the property: one predicate whose operator
    raises leaves the tracer disabled, the next line is lost. *)
 Theorem C05_without_finally_refuted :
